@@ -113,11 +113,9 @@ type Interp struct {
 	// environment models
 	clockSec  value
 	clockNsec value
-	files     map[string][]value
-	kv        *kvStore
+	files     map[string]*fileData
+	kvs       map[string]*kvModel
 }
-
-type kvStore struct{}
 
 func (in *Interp) info(fn *ssa.Function) *fnInfo {
 	if fi, ok := in.fninfo[fn]; ok {
